@@ -1,6 +1,8 @@
 import SfntV.Model.LayoutFind
 import SfntV.Model.LayoutKern
 import SfntV.Model.LayoutLig
+import SfntV.Model.LayoutPipe
+import SfntV.Drive.Shape
 
 namespace SfntV.Drive.Layout
 open SfntV SfntV.Layout
@@ -208,6 +210,53 @@ def trivialOk (cm : Nat → Nat) (w : Nat → Int) (text : List Nat) (got : List
   got.length == text.length &&
   (text.zip got).all fun (r, g) => g.gid == cm r && g.text == [r] && w g.gid == g.adv
 
+/-! ### layout.pipeline: fonts with hand-built GSUB/GPOS/GDEF through the real engine model -/
+
+/-- a lookup list / GDEF payload in the format of area `shape` (`-` = nil table) -/
+def parseShapePayload (s : String) : Option (Option Drive.Shape.Case) :=
+  if s == "-" then some none else do
+    let ns ← parseNatList s
+    match Drive.Shape.pCase ns with
+    | some (c, []) => some (some c)
+    | _ => none
+
+/-- texts: strings separated by `;`, runes by `.` -/
+def parseTexts (s : String) : Option (List (List Nat)) :=
+  (s.splitOn ";").mapM (natList ".")
+
+def parseGInfo (fs : List (String × String)) (pre : String) : Option (Option GInfo × Nat) := do
+  let pl ← (getField fs (pre ++ "tab")).bind parseShapePayload
+  let chosen ← (getField fs (pre ++ "chosen")).bind String.toNat?
+  match pl with
+  | none => pure (none, chosen)
+  | some c =>
+    let scripts ← (getField fs (pre ++ "scripts")).bind parseScripts
+    let feats ← (getField fs (pre ++ "feats")).bind parseFeats
+    pure (some ⟨scripts, feats, c.ll⟩, chosen)
+
+@[noinline] def runPipeline (fs : List (String × String)) : Option String := do
+  let (gi, gch) ← parseGInfo fs "g"
+  let (pi, pch) ← parseGInfo fs "p"
+  let gdc ← (getField fs "gdef").bind parseShapePayload
+  let gd : Shape.Gdef := match gdc with
+    | some c => c.gd
+    | none => {}
+  let gsw ← (getField fs "gsw").bind parseSw
+  let psw ← (getField fs "psw").bind parseSw
+  let cm ← (getField fs "map").bind parseNatMap
+  let w ← (getField fs "w").bind parseNatMap
+  let ng ← (getField fs "ng").bind String.toNat?
+  let texts ← (getField fs "texts").bind parseTexts
+  let gsub := mkCtx (constMatcher gch) Gen.gsubDefaultFeatures gi gsw
+  let gpos := mkCtx (constMatcher pch) Gen.gposDefaultFeatures pi psw
+  let outs := layoutHistory Gen.shapeNestedBudget (fun r => (lookupNat cm r).getD 0) gsub gpos gd
+    (widthFn ng w) {} texts
+  pure ("|".intercalate (outs.map fun o =>
+    match o with
+    | .ok seq => "ok:" ++ Drive.Shape.showSeq seq
+    | .err e => "err:" ++ e
+    | .panic _ => "panic"))
+
 def prefixes : List String := ["layout."]
 
 def handle (op : String) (fs : List (String × String)) : String :=
@@ -262,6 +311,8 @@ def handle (op : String) (fs : List (String × String)) : String :=
     match parseText fs with
     | some c => runText c
     | none => "bad-case"
+  else if op == "layout.pipeline" then
+    (runPipeline fs).getD "bad-case"
   else if op == "layout.trivial" then
     match (getField fs "map").bind parseNatMap, (getField fs "w").bind parseNatMap,
           (getField fs "text").bind (natList ","), (getField fs "got").bind parseGlyphs,
